@@ -342,6 +342,62 @@ def cli_lane(pid, tier, seed, agg, meta, profiles=("debug", "release")):
                     m["violations"] += 1
                     rep["violations"].append({"monitor": "c18.write-failure", "sig": "exit-zero-without-result-line:closed-pipe", "rule": r, "data": d, "expected": "a non-zero exit status (or death by SIGPIPE) when the result line cannot be written",
                                               "got": {"exit": rc}, "note": "exit status 0 although no result line was delivered (stdout = a pipe without a reader)", "lane": "cli-" + profile, "direct": False, "count": 1})
+        # a producer that is slow or delivers the document in pieces: nothing arrives for 1.2 s, or the
+        # text arrives in three writes with pauses (the cuts fall anywhere, also inside a character)
+        if pid == "C18":
+            m = mons.setdefault("c18.slow-stdin", {"observed": 0, "judged": 0, "unjudged": 0, "violations": 0})
+            slow_pairs = [((r, d), o) for (r, d), o, c in zip(pairs, oracle, classes) if 2 < len(d) < 4000 and "\x00" not in r + d and len(r) < 4000][:: max(1, len(pairs) // 40)][: (8 if tier == "quick" else 40)]
+            slow_pairs += [(("{\"var\":\"\"}", "{\"k\":\"\u00e9\u65e5\U0001F600\"}"), None), (("{\"cat\":[{\"var\":\"a\"},\"!\"]}", "{\"a\": [1, 2,\n 3]}\n"), None)]
+            need = [p_ for p_, o in slow_pairs if o is None]
+            got_or = libcall(jlmon, need) if need else []
+            it = iter(got_or)
+            slow_pairs = [(p_, o if o is not None else next(it)) for p_, o in slow_pairs]
+
+            def slow_one(job):
+                (r, d), o, mode, form = job
+                argv = [binary] + (["--"] if r.startswith("-") else []) + [r] + (["-"] if form == "dash" else [])
+                raw = d.encode("utf8", "surrogatepass")
+                try:
+                    p = subprocess.Popen(argv, stdin=subprocess.PIPE, stdout=subprocess.PIPE, stderr=subprocess.PIPE)
+                    try:
+                        if mode == "late":
+                            time.sleep(1.2)
+                            p.stdin.write(raw)
+                        else:
+                            a, b = max(1, len(raw) // 3), max(2, 2 * len(raw) // 3)
+                            for piece in (raw[:a], raw[a:b], raw[b:]):
+                                p.stdin.write(piece)
+                                p.stdin.flush()
+                                time.sleep(0.35)
+                        p.stdin.close()
+                    except (BrokenPipeError, OSError):
+                        pass
+                    out = p.stdout.read()
+                    err = p.stderr.read()
+                    rc = p.wait(timeout=40)
+                except subprocess.TimeoutExpired:
+                    p.kill()
+                    rc, out, err = None, b"", b"timeout"
+                return job, rc, out, err
+
+            jobs = [(pd, o, mode, form) for (pd, o) in slow_pairs for mode in ("late", "pieces") for form in ("stdin", "dash")]
+            with ThreadPoolExecutor(max_workers=4 * O.NCPU) as ex:
+                for job, rc, out, err in ex.map(slow_one, jobs):
+                    (r, d), o, mode, form = job
+                    rep["evaluations"] += 1
+                    m["observed"] += 1
+                    m["judged"] += 1
+                    hashes.add(hkey("slow", r, d, mode, form))
+                    rep["cells"]["stdin:%s" % mode] = rep["cells"].get("stdin:%s" % mode, 0) + 1
+                    vio, _ = judge_cli(pid, r, d, form, profile, o, rc, out, err)
+                    for v in vio:
+                        if v["monitor"].startswith("c18."):
+                            v["monitor"] = "c18.slow-stdin"
+                            v["sig"] = "%s:%s" % (mode, v["sig"])
+                            v["note"] += " [stdin from a producer that " + ("wrote nothing for 1.2 s" if mode == "late" else "delivered the text in three pieces with pauses") + "]"
+                        if v["monitor"] == "c18.slow-stdin":
+                            m["violations"] += 1
+                        rep["violations"].append(v)
         # data typed on a terminal: stdin is a tty (pty), not a pipe or a file
         if pid == "C18":
             import pty
@@ -764,3 +820,79 @@ def replay(pid, rec, path):
         return 1
     print("REPLAY not reproduced")
     return 0
+
+
+# ----------------------------------------------------------------------------------------
+# cold start: many fresh processes whose very first evaluations are made by 8 threads at once
+# (lazily built tables are raced here and nowhere else; see props_c17::coldstart)
+
+def coldstart_lane(pid, tier, seed, agg, meta):
+    lanes = [("relchk", 40 if tier == "quick" else 400), ("release", 24 if tier == "quick" else 200)]
+    if pid == "C17":
+        lanes.append(("tsan", 12 if tier == "quick" else 60))
+    d = os.path.join(O.OUT, pid, "coldstart")
+    os.makedirs(d, exist_ok=True)
+    for lane, nproc in lanes:
+        binary = O.build_lane(lane)
+        t0 = time.time()
+        reports, failures = [], []
+
+        def one(i):
+            out = os.path.join(d, "%s-%d.json" % (lane, i))
+            try:
+                os.unlink(out)
+            except OSError:
+                pass
+            env = dict(O.BASE_ENV)
+            env["TSAN_OPTIONS"] = "halt_on_error=0 exitcode=66 second_deadlock_stack=1"
+            try:
+                p = subprocess.run([binary, "coldstart", pid, "--seed", str(seed * 100003 + i), "--lane", lane, "--out", out], stdout=subprocess.PIPE, stderr=subprocess.PIPE, timeout=600, env=env, preexec_fn=O.die_with_parent)
+            except subprocess.TimeoutExpired:
+                return i, None, "", None
+            rep = None
+            if os.path.exists(out):
+                try:
+                    rep = json.load(open(out))
+                except Exception:
+                    rep = None
+            return i, p.returncode, p.stderr.decode("utf8", "replace")[-3000:], rep
+
+        with ThreadPoolExecutor(max_workers=O.NCPU) as ex:
+            for i, rc, err, rep in ex.map(one, range(nproc)):
+                if rep is not None:
+                    reports.append(rep)
+                if rc == 0 and rep is not None:
+                    continue
+                failures.append({"shard": i, "rc": rc, "stderr": err, "wall_s": 0, "lane": lane})
+        lname = "coldstart-" + lane
+        for r in reports:
+            for v in r.get("violations", []):
+                v["lane"] = lname
+                v["note"] = (v.get("note") or "") + " [among the first evaluations of a fresh process, made by 8 threads at once]"
+            O.merge_report(agg, r, lname)
+        O.lane_record(agg, lname, "fresh processes (%s build) whose first evaluations are made by 8 threads at once, judged against the model" % lane, reports, failures, time.time() - t0)
+        mon = pid.lower() + ".cold-start"
+        for f in failures:
+            if f["rc"] is None:
+                raise O.Inconclusive("cold-start process %d (%s) ran into the wall-clock limit" % (f["shard"], lane))
+            if f["rc"] == 66 or "ThreadSanitizer" in f["stderr"]:
+                frame = "?"
+                for line in f["stderr"].splitlines():
+                    mm = re.search(r"#\d+ (\S*jsonlogic_rs\S*)", line)
+                    if mm:
+                        frame = mm.group(1)[:80]
+                        break
+                m = agg["monitors"].setdefault("c17.sanitizer", {"observed": 0, "judged": 0, "unjudged": 0, "violations": 0})
+                m["violations"] += 1
+                agg["violations"].append({"monitor": "c17.sanitizer", "sig": "tsan:cold-start:data-race:%s" % frame, "rule": None, "data": None, "expected": "no ThreadSanitizer report",
+                                          "got": {"report": f["stderr"][:3000], "exit": f["rc"]}, "note": "ThreadSanitizer reported a data race among the first evaluations of a fresh process", "lane": lname, "count": 1, "direct": False})
+                continue
+            if "HARNESS-PANIC" in f["stderr"] or f["rc"] == 2:
+                raise O.Inconclusive("cold-start process %d (%s): the harness itself failed: %s" % (f["shard"], lane, f["stderr"][-400:]))
+            # the process died: the first evaluations of a process are calls like any other
+            m = agg["monitors"].setdefault(mon, {"observed": 0, "judged": 0, "unjudged": 0, "violations": 0})
+            m["observed"] += 1
+            m["judged"] += 1
+            m["violations"] += 1
+            agg["violations"].append({"monitor": mon, "sig": "process-died-at-cold-start:%s" % f["rc"], "rule": None, "data": None, "expected": "values or errors",
+                                      "got": {"exit": f["rc"], "stderr": f["stderr"][-1500:]}, "note": "a fresh process died while 8 threads were making its first evaluations", "lane": lname, "count": 1, "direct": False})
